@@ -371,12 +371,12 @@ def _mk(name, base, ns=(1, 2), tiers=None, **kw):
 _mk('Arm_init', _ArmInit, tiers={2: 'thorough'})
 _mk('Arm_FK', _ArmFK, tiers={2: 'thorough'})
 _mk('Arm_FK_any_base', _ArmFK, ns=(1,), tiers={1: 'thorough'}, base_identity=False)
-_mk('Arm_FK_clamp', _ArmFKclamp, ns=(1, 2))
+_mk('Arm_FK_clamp', _ArmFKclamp, ns=(1, 2), tiers={2: 'thorough'})
 _mk('Arm_move', _ArmMove, tiers={1: 'thorough', 2: 'thorough'})
 _mk('Arm_tool_change', _ArmTool, ns=(1,), tiers={1: 'thorough'})
 _mk('Arm_jacobians', _ArmJac, tiers={2: 'thorough'})
 _mk('Arm_jacobian_is_derivative', _ArmJacDeriv, tiers={2: 'thorough'})
-_mk('Arm_statics', _ArmStatics, ns=(1, 2))
+_mk('Arm_statics', _ArmStatics, ns=(1,))
 _mk('Arm_index_safety', _ArmIndex, ns=(1, 2, 3))
 
 
